@@ -303,7 +303,7 @@ class VideoPlayer(HTMLHandlerBase):
             licenseUrl: str | None = None
             if options.marlin and options.marlin.licenseUrl:
                 licenseUrl = options.marlin.licenseUrl
-            elif stream_model.marlin_la_url:
+            elif stream_model is not None and stream_model.marlin_la_url:
                 licenseUrl = stream_model.marlin_la_url
             if licenseUrl:
                 context["source"] = f'{licenseUrl}#{context["source"]}'
